@@ -47,7 +47,7 @@ def matrix_descs(ctx, sym, ferm, kind="general"):
                         if not d["sectors"]:
                             continue
                         idx += 1
-                        fill = ("rand", "rand", "rank1", "zerocol", "zeroblock")[idx % 5]
+                        fill = ("rand", "rand", "rank1", "zerocol", "zeroblock", "csym", "cdiag")[idx % 7]
                         dtype = ("float64", "complex128")[(idx // 3) % 2]
                         yield dict(d, fill=(fill, idx), dtype=dtype, _pattern=pname)
     else:
